@@ -48,9 +48,11 @@ TECHNIQUE = {
     'C01': 'AST/CFG/def-use static analysis: uniform-index (row consistency), sort-then-prefix '
            'ordering, comparison roles, linear index forms, attribute resolution',
     'C02': 'static provenance and effect analysis over the call graph (seed dataflow, ambient '
-           'RNG/clock reachability, ordered-iteration check)',
+           'RNG/clock reachability, ordered-iteration check)'
+           '; frozen guard table for the choice of the batch generator',
     'C03': 'static table agreement between compiler and loader, guard dominance, pairing of '
-           'output/operation stores on all CFG paths',
+           'output/operation stores on all CFG paths'
+           '; execute() dispatch (operation runs exactly under `operation in node`, value stored, operation dropped), execution order = filtered topological order under a complete cache key; frozen guard table for compilers and loaders (which side of which test adds an instruction node, edge or value)',
     'C04': 'static ordering and ownership analysis (FIFO pop, cancel-before-replan dominance, '
            'who-may-remove pending ids, schedule-taint of the objective)',
     'C05': 'static pairing / guard analysis of the pool loader, callback ownership and refusal '
@@ -71,27 +73,36 @@ TECHNIQUE = {
     'C11': 'static taint/sanitiser analysis of acquire() return values over all overrides, '
            'truncation-limit polarity, evidence pairing, MRO pairing of evaluate / '
            'evaluate_gradient, syntax-directed symbolic differentiation (exp, log, sqrt, normal '
-           'cdf, Owen T) with exact normal forms for the closed-form acquisition gradients',
+           'cdf, Owen T) with exact normal forms for the closed-form acquisition gradients'
+           '; control-flow rules of the optimisation loop (prior phase exactly t < 0, base refusal honoured, batch returned, optimisation recorded when it ran), zero-variance column skipped',
     'C12': 'static dataflow of distance arguments, append-only history ownership, unit '
            'typestate of the adaptive scale, def-use ordering of the Welford update, abstract '
            'interpretation of the straight-line update over sample-sum normal forms (inductive '
-           'invariant of the batched moment recurrence, decided exactly)',
+           'invariant of the batched moment recurrence, decided exactly)'
+           '; forwarding of every popped metric argument guarded by presence only; key-test polarity of the re-sort',
     'C13': 'static comparison-role, uniform-permutation and lock-step counter analysis; exact '
-           'normal forms over sample sums for the variance / ESS formulas (no evaluation)',
+           'normal forms over sample sums for the variance / ESS formulas (no evaluation)'
+           '; defaults substituted only under `is None`, every exit returns the accumulated value (CFG fall-through check), pinned last cumulative weight',
     'C14': 'static ownership-after-copy analysis, snapshot-before-mutation ordering, guard '
-           'dominance for the acyclicity check',
+           'dominance for the acyclicity check'
+           '; rebinding (not in-place) observed setter that copy() relies on, setter loop without early exit, flag typestate of the observed-data move, reference fields after become()',
     'C15': 'static guard dominance, generator provenance, loop bookkeeping in linear form, '
-           'call-site argument order',
+           'call-site argument order'
+           '; cache written back as a (generator, seen-set) pair under one test, matching starting pair',
     'C16': 'static column-order dataflow, uniform weight argument, slice/axis forms, '
            'getstate/setstate tuple agreement, exact normal forms of the R-hat / ESS formulas '
-           'over the chain statistics',
+           'over the chain statistics'
+           '; accessor wiring (name -> statistic of its own column, all exits return), save() dispatch per extension with the file opened from fname, FFT autocovariance form and lag progress of the ESS loop',
     'C17': 'static mask-index uniformity, opposite polarity of regressor operands, comparison '
-           'roles of the partition',
+           'roles of the partition'
+           '; fit/adjust wiring (fields stored on every path, fit(X, y) argument order, accessors, returned sample) with argument binding by parameter name',
     'C18': 'static uniform-index analysis of the batch loop, copy-before-mutate, call ordering '
-           'in run_external',
+           'in run_external'
+           '; constant detection / batch length / dtype-dependent result assembly of run_vectorized with feasibility-filtered CFG paths, data flow of the external command pipeline, exact default-parser condition',
     'C19': 'static frame typestate (box/world), polarity of centre shifts, sibling agreement of '
            'serial and parallel weight code, CFG must-pass rule for the line-search retract, '
-           'library-fact rule for scalar conversions',
+           'library-fact rule for scalar conversions'
+           '; verdict structure of contains(), bounded advance phase of the line search, lock-step of the region and distance-function lists (exhaustive and exclusive flag conditions), surrogate_used derived from the flags that choose the distance functions',
     'C20': 'static space typestate (theta / theta-tilde) at transform call sites, case-table '
            'agreement of the three helpers, polarity of the MH log-ratio, exact rational-function '
            '/ log-linear normal forms of the transform, Jacobian and unbiased-estimator formulas '
